@@ -1,6 +1,6 @@
 (* Proofs about Bin.v (property C05): the per-step table with timestamp tags
    computes, at every step of a query, the table-free pairing [pure_step]. *)
-From Coq Require Import List ZArith NArith Bool Lia.
+From Coq Require Import List ZArith NArith Bool Lia Permutation.
 From Verif Require Import Base Agg AggProofs Func Bin.
 Import ListNotations.
 Close Scope Z_scope.
@@ -1341,3 +1341,133 @@ Section StepWF.
     rewrite E. apply (NoDup_flat_map_filter (fun rs : nat * V => rhs_outs c hidx lidx (fst rs))). exact Hnd.
   Qed.
 End StepWF.
+
+(* ---- C11: the reference step does not depend on the order of its inputs ------- *)
+
+Section RefOrder.
+  Variable V : Type.
+  Variable op : V -> V -> V * bool.
+  Variable b2v : bool -> V.
+  Variable sigf : labels -> labels.
+  Variable result_metric : labels -> labels -> labels.
+  Variable c : card.
+  Variable return_bool : bool.
+
+  Notation sig_eq := (sig_eq sigf).
+  Notation has_dup_sig := (has_dup_sig V sigf).
+  Notation ref_step := (ref_step V op b2v sigf result_metric c return_bool).
+
+  Lemma sig_eq_trans a b d : sig_eq a b = true -> sig_eq a d = true -> sig_eq b d = true.
+  Proof. unfold Bin.sig_eq. rewrite !labels_eqb_eq. congruence. Qed.
+
+  (* without duplicate signatures, [find] returns the only match, wherever it is *)
+  Lemma find_unique_match (one : list (labels * V)) m rs :
+    has_dup_sig one = false -> In rs one -> sig_eq m (fst rs) = true ->
+    find (fun r => sig_eq m (fst r)) one = Some rs.
+  Proof.
+    induction one as [|x one IH]; intros Hd Hin Hm; [destruct Hin|].
+    simpl in Hd. apply orb_false_iff in Hd. destruct Hd as [Hx Hd]. simpl.
+    destruct (sig_eq m (fst x)) eqn:Ex.
+    - destruct Hin as [->|Hin]; [reflexivity|].
+      exfalso. assert (Hc : existsb (fun y => sig_eq (fst x) (fst y)) one = true).
+      { apply existsb_exists. exists rs. split; [assumption|]. eapply sig_eq_trans; eauto. }
+      congruence.
+    - destruct Hin as [->|Hin]; [congruence|]. apply IH; assumption.
+  Qed.
+
+  Lemma has_dup_sig_perm (l l' : list (labels * V)) : Permutation.Permutation l l' -> has_dup_sig l = has_dup_sig l'.
+  Proof.
+    assert (Hex : forall (p : labels * V -> bool) a b, Permutation.Permutation a b -> existsb p a = existsb p b).
+    { intros p a b HP. induction HP; simpl; [reflexivity|rewrite IHHP; reflexivity|
+        destruct (p x), (p y); reflexivity|congruence]. }
+    intros HP. induction HP; simpl.
+    - reflexivity.
+    - rewrite IHHP, (Hex _ _ _ HP). reflexivity.
+    - assert (Es : sig_eq (fst y) (fst x) = sig_eq (fst x) (fst y)).
+      { unfold Bin.sig_eq. destruct (labels_eqb (sigf (fst y)) (sigf (fst x))) eqn:E1, (labels_eqb (sigf (fst x)) (sigf (fst y))) eqn:E2; try reflexivity.
+        - apply labels_eqb_eq in E1. symmetry in E1. apply labels_eqb_eq in E1. congruence.
+        - apply labels_eqb_eq in E2. symmetry in E2. apply labels_eqb_eq in E2. congruence. }
+      rewrite Es. destruct (sig_eq (fst x) (fst y)), (existsb (fun y0 => sig_eq (fst y) (fst y0)) l),
+        (existsb (fun y0 => sig_eq (fst x) (fst y0)) l), (has_dup_sig l); reflexivity.
+    - congruence.
+  Qed.
+
+  (* Two successful evaluations on the same samples in a different order contain the same samples. *)
+  Theorem ref_step_order_independent lhs rhs lhs' rhs' out out' :
+    Permutation.Permutation lhs lhs' -> Permutation.Permutation rhs rhs' ->
+    ref_step lhs rhs = Some out -> ref_step lhs' rhs' = Some out' ->
+    forall x, In x out <-> In x out'.
+  Proof.
+    intros Pl Pr H H' x. unfold Bin.ref_step in H, H'.
+    set (many := if is_one_to_many c then rhs else lhs) in *.
+    set (one := if is_one_to_many c then lhs else rhs) in *.
+    set (many' := if is_one_to_many c then rhs' else lhs') in *.
+    set (one' := if is_one_to_many c then lhs' else rhs') in *.
+    assert (Pm : Permutation.Permutation many many') by (unfold many, many'; destruct (is_one_to_many c); assumption).
+    assert (Po : Permutation.Permutation one one') by (unfold one, one'; destruct (is_one_to_many c); assumption).
+    destruct (has_dup_sig one) eqn:Hd; [discriminate|].
+    assert (Hd' : has_dup_sig one' = false) by (rewrite <- (has_dup_sig_perm _ _ Po); assumption).
+    rewrite Hd' in H'.
+    rewrite (ref_many_In V op b2v sigf result_metric c return_bool _ _ _ _ H x).
+    rewrite (ref_many_In V op b2v sigf result_metric c return_bool _ _ _ _ H' x).
+    split; intros [ls [rs [Hin [Hf He]]]]; exists ls, rs.
+    - split; [eapply Permutation.Permutation_in; eauto|]. split; [|assumption].
+      apply find_some in Hf. destruct Hf as [Hr Hm].
+      apply find_unique_match; [assumption|eapply Permutation.Permutation_in; eauto|assumption].
+    - split; [eapply Permutation.Permutation_in; [apply Permutation.Permutation_sym|]; eauto|]. split; [|assumption].
+      apply find_some in Hf. destruct Hf as [Hr Hm].
+      apply find_unique_match; [assumption|eapply Permutation.Permutation_in; [apply Permutation.Permutation_sym|]; eauto|assumption].
+  Qed.
+End RefOrder.
+
+Section JoinOrder.
+  Variable V : Type.
+  Variable op : V -> V -> V * bool.
+  Variable b2v : bool -> V.
+  Variable on : bool.
+  Variable ml incl : list N.
+  Variable c : card.
+  Variable return_bool : bool.
+  Variable op_drops_name : bool.
+
+  Notation stepT := (Z * list (nat * V) * list (nat * V))%type.
+
+  Definition step_samples (lhs_series rhs_series : list labels) (s : stepT) : list (labels * V) :=
+    relabel V on ml incl c return_bool op_drops_name lhs_series rhs_series
+      (pure_step V op b2v c return_bool (op_hidx on ml c lhs_series rhs_series)
+                 (op_lidx on ml c lhs_series rhs_series) (snd (fst s)) (snd s)).
+
+  Lemma matches_reference_any lhs_series rhs_series :
+    one_side_unique on ml (one_side_series c lhs_series rhs_series) ->
+    (is_one_to_one c = true -> incl = []) ->
+    forall (s : stepT) out, good_step V lhs_series rhs_series s ->
+    ref_operator_step V op b2v on ml incl c return_bool op_drops_name lhs_series rhs_series (snd (fst s)) (snd s) = Some out ->
+    forall m v, In (m, v) (step_samples lhs_series rhs_series s) <-> In (m, v) out.
+  Proof.
+    unfold one_side_series, step_samples. destruct (is_one_to_many c) eqn:Hc; intros HA Hincl s out Hg Href.
+    - apply (run_operator_matches_reference_otm V op b2v on ml incl c return_bool op_drops_name lhs_series rhs_series Hc HA s out Hg Href).
+    - apply (run_operator_matches_reference V op b2v on ml incl c return_bool op_drops_name lhs_series rhs_series Hc HA Hincl s out Hg Href).
+  Qed.
+
+  (* C11 for the join: the same labelled samples, presented through two different
+     series lists (another storage order, another sharding) and in another order
+     inside the step vectors, give the same samples - where the reference succeeds *)
+  Theorem join_order_independent lhs_series rhs_series lhs_series' rhs_series' (s s' : stepT) out out' :
+    one_side_unique on ml (one_side_series c lhs_series rhs_series) ->
+    one_side_unique on ml (one_side_series c lhs_series' rhs_series') ->
+    (is_one_to_one c = true -> incl = []) ->
+    good_step V lhs_series rhs_series s -> good_step V lhs_series' rhs_series' s' ->
+    Permutation (labelled V lhs_series (snd (fst s))) (labelled V lhs_series' (snd (fst s'))) ->
+    Permutation (labelled V rhs_series (snd s)) (labelled V rhs_series' (snd s')) ->
+    ref_operator_step V op b2v on ml incl c return_bool op_drops_name lhs_series rhs_series (snd (fst s)) (snd s) = Some out ->
+    ref_operator_step V op b2v on ml incl c return_bool op_drops_name lhs_series' rhs_series' (snd (fst s')) (snd s') = Some out' ->
+    forall m v, In (m, v) (step_samples lhs_series rhs_series s) <-> In (m, v) (step_samples lhs_series' rhs_series' s').
+  Proof.
+    intros HA HA' Hincl Hg Hg' Pl Pr Href Href' m v.
+    rewrite (matches_reference_any lhs_series rhs_series HA Hincl s out Hg Href).
+    rewrite (matches_reference_any lhs_series' rhs_series' HA' Hincl s' out' Hg' Href').
+    unfold ref_operator_step in Href, Href'.
+    apply (ref_step_order_independent V op b2v (the_sig on ml) (ref_result_metric op_drops_name return_bool c on ml incl)
+             c return_bool _ _ _ _ out out' Pl Pr Href Href').
+  Qed.
+End JoinOrder.
